@@ -17,6 +17,7 @@ func init() {
 		ruleT2(c, "C03.T2")
 		ruleT3(c, "C03.T3")
 		ruleSlot(c, "C03.T4")
+		ruleA2(c, "C03.T5")
 	}
 }
 
